@@ -243,8 +243,13 @@ def rOf : RPC → Option DOut → Nat
   | .gLoop _ ret, _ => 20 * loopK ret + 14
   | .gEntry _ ret, _ => 20 * loopK ret + 15
 
+/-- a node is being stepped by the dispatcher -/
+def curW : Option Name → Nat
+  | some _ => 4
+  | none => 0
+
 def restOf (s : Sys) : Nat :=
-  5 * s.ready.length + s.toRun.length + (if s.cur.isSome = true then 4 else 0) + rOf s.rpc s.susp
+  5 * s.ready.length + s.toRun.length + curW s.cur + rOf s.rpc s.susp
 
 def L1 (N : Nat) (s : Sys) : Nat := cntNone N s.nodes
 def L2 (N : Nat) (s : Sys) : Nat := sumF N (fun _ nd => calOf N nd) s.nodes
